@@ -160,6 +160,9 @@ func (e *Engine) contractOf(f *ssa.Function) *FuncContract {
 	if e.inRepo(f) {
 		return e.cs.Funcs[e.funcKey(f)]
 	}
+	if fc, ok := e.cs.Funcs[f.String()]; ok {
+		return fc
+	}
 	return e.cs.Funcs[e.extName(f)]
 }
 
